@@ -25,6 +25,8 @@ LEVEL = "fault_enumeration"
 POINTS = ["unpickle-args", "worker.after_get", "task-start", "mid-task", "worker.after_run", "pickle-result",
           "queue.in_send", "worker.after_send"]
 ACTIONS = ["SIGKILL", "SIGTERM", "SIGSEGV", "exit0", "exit1"]
+STARTUP_POINTS = ["executor.reuse.before_check", "executor.resize.enter", "executor.resize.before_shrink_wait",
+                  "executor.resize.after_adjust"]
 CALL_WALL_LIMIT = 20.0
 MODE_FOR = {"unpickle-args": "unpickle-args", "mid-task": "mid", "pickle-result": "pickle-result"}
 
@@ -47,13 +49,24 @@ def scenarios(tier, seed):
         out.append(dict(n_jobs=2, managed=managed, return_as="list", hist="ok,idle,ok,ok", point="idle", action=action, victims=victims))
         if not quick:
             out.append(dict(n_jobs=3, managed=managed, return_as="generator", hist="ok,idle,ok,ok", point="idle", action=action, victims=victims))
+    # a worker dying during the next call's start-up (executor re-use check / resize to another n_jobs)
+    startup = []
+    for point, (nj_seq, shape), action, victims in itertools.product(
+            STARTUP_POINTS, (((2, 3, 3, 3), "grow"), ((3, 2, 2, 2), "shrink"), ((2, 2, 2, 2), "same")),
+            ("SIGKILL",) if quick else ("SIGKILL", "SIGSEGV", "SIGTERM"), ("first", "all")):
+        if shape == "same" and point != "executor.reuse.before_check":
+            continue        # no resize when n_jobs is unchanged
+        startup.append(dict(n_jobs=nj_seq[0], n_jobs_seq=list(nj_seq), managed=False, return_as="list", hist="ok,fault,ok,ok",
+                            point=point, action=action, victims=victims, shape=shape))
     if quick:
         from ..parcommon import rotate_slice
-        must = [s for s in out if s["victims"] == "first" and s["hist"] in ("fault,ok", "ok,idle,ok,ok")
+        must = startup + [s for s in out if s["victims"] == "first" and s["hist"] in ("fault,ok", "ok,idle,ok,ok")
                 and s["n_jobs"] == 2 and not s["managed"] and s["return_as"] == "list"
                 and (s["action"] == "SIGKILL" or (s["action"] in ("exit0", "exit1") and s["point"] in ("task-start", "mid-task", "worker.after_run")))]
-        rest = [s for s in out if s not in must]
+        rest = [s for s in out if s not in must and s not in startup]
         out = must + rotate_slice(rest, seed, 3)
+    else:
+        out = out + startup
     return out
 
 
@@ -68,6 +81,8 @@ def build(s, d):
         elif h == "fault":
             calls.append({"n": 6, "mode": mode})
             faults.append({"call": k, "point": s["point"], "victims": s["victims"], "action": s["action"]})
+        if "n_jobs_seq" in s:
+            calls[-1]["n_jobs"] = s["n_jobs_seq"][k]
         elif h == "idle":
             calls.append({"kind": "idle-kill", "victims": s["victims"], "action": s["action"] if s["action"].startswith("SIG") else "SIGKILL"})
     spec = {"n_jobs": s["n_jobs"], "managed": s["managed"], "return_as": s["return_as"], "calls": calls}
@@ -187,7 +202,7 @@ def _cleanup_shm(pids):
 def judge(s, result, timed_out, tail):
     """List of (signature, message)."""
     hist = s["hist"].split(",")
-    tag = "%s|%s" % (s["point"], s["hist"])
+    tag = "%s|%s" % (s["point"], s["hist"]) + ("|" + s["shape"] if s.get("shape") else "")
     bad = []
     calls = result["calls"] if result else []
     done = any(c.get("kind") == "done" for c in calls)
